@@ -872,6 +872,14 @@ def csvrow(ctx):
         if nm not in ("extend_from_slice", "extend", "push_str", "write_all") or len(t["args"]) < 2:
             continue
         src = t["args"][1]
+        # see through element-wise views of the chunk (`.iter().copied()`, `.to_vec()`)
+        for _ in range(6):
+            dd = fa.single_def(op_place(src)["l"]) if op_place(src) is not None and not op_place(src)["p"] else None
+            if dd and dd[2] == "call" and (callee_of(dd[3]) or {}).get("name") in (
+                    "iter", "into_iter", "copied", "cloned", "to_vec", "to_owned", "as_ref", "borrow") and dd[3]["args"]:
+                src = dd[3]["args"][0]
+            else:
+                break
         if buffer_var(fa, src) != outbuf:
             continue
         # the slice bound is nout
@@ -935,28 +943,39 @@ def csvrow(ctx):
            "the cell pushed is the accumulated cell" if okb else
            "parse_csv_row pushes something other than the accumulated cell (the decode buffer holds "
            "only the last chunk of a long cell)")
-    # (c) every outcome but OutputFull emits a cell
-    sw = None
+    # (c)/(e) per outcome of the read: the CFG specialised to "the result is variant v" (every
+    # switch on the result's discriminant keeps only the edge v takes)
+    from mir import FnA
+    sws = []
     for b in sorted(fa.live_blocks()):
         t = fa.term(b)
         if t["k"] != "switch":
             continue
         o = fa.origin(t["op"])
         if o[0] == "rv" and o[1]["k"] == "discr" and tuple_field_of_result({"c": o[1]["place"]}) == 0:
-            sw = (b, t)
-    if sw is None:
+            sws.append((b, t))
+    if not sws:
         raise EngineError("CSVROW: the result of read_field is not matched on")
-    sb, st = sw
-    arms = dict(zip(st["vals"], st["targets"]))
+    sb = sws[0][0]
+
+    def specialised(v):
+        removed = set()
+        for b, t in sws:
+            arms = dict(zip(t["vals"], t["targets"]))
+            keep = arms.get(v, t["otherwise"])
+            for tg in set(arms.values()) | {t["otherwise"]}:
+                if tg != keep:
+                    removed.add((b, tg))
+        return FnA(fa.fn, removed=removed)
+
     okc = True
     bad = []
-    for v, tg in sorted(arms.items()):
-        if v in (1, 3):
-            continue
-        r = fa.reachable(tg, avoid=push_b) if tg not in push_b else set()
-        if rb in r or any(fa.term(x)["k"] == "return" for x in r):
+    for v, name in ((0, "InputEmpty"), (2, "Field")):
+        fv = specialised(v)
+        r = fv.reachable(after, avoid=push_b)
+        if rb in r or any(fv.term(x)["k"] == "return" for x in r):
             okc = False
-            bad.append({0: "InputEmpty", 2: "Field"}.get(v, str(v)))
+            bad.append(name)
     ctx.ob("CSVROW", "parse_csv_row|every-field-outcome-emits-a-cell", okc, fa.loc(sb),
            "InputEmpty and Field each emit the cell before the next read or the return"
            if okc else
@@ -965,12 +984,9 @@ def csvrow(ctx):
            % "/".join(bad))
     # (e) End carries no cell: csv-core returns End only after the last field was returned by a
     # Field result (with an empty chunk), so emitting on End appends a cell that is not in the row
-    oke = True
-    if 3 in arms:
-        tg = arms[3]
-        # blocks from which the loop head or the return is reachable without another read
-        r = fa.reachable(tg, avoid={rb})
-        oke = not (r & push_b) and tg not in push_b
+    fe = specialised(3)
+    r = fe.reachable(after, avoid={rb})
+    oke = not (r & push_b)
     ctx.ob("CSVROW", "parse_csv_row|end-outcome-emits-nothing", oke, fa.loc(sb),
            "the End outcome leaves the loop without emitting a cell" if oke else
            "parse_csv_row emits a cell on the End outcome: csv-core has already returned every field "
